@@ -290,3 +290,27 @@ def replay_act(bname, model, meta):
         err = repr(e)
     return {'confirmed': err is not None and 'KeyError' in err, 'exception': err,
             'native_cmd': 'pjm5bus (setup=False): Bus 0 and 3 off; System.setup() -> ConnMan.act -> KeyError'}
+
+
+
+def replay_g_islands(obligation, model, meta):
+    """native run of the real System.g_islands on a stub: successive calls with different islanded sets (also of equal size) zero
+    exactly the residuals of the buses that are islanded at that call"""
+    from types import SimpleNamespace
+    import numpy as np
+    from andes.system import System
+    from contracts.packutil import Stub
+    stub = Stub(_cls=System, Bus=SimpleNamespace(n_islanded_buses=0, islanded_a=np.array([], dtype=int), islanded_v=np.array([], dtype=int)),
+                dae=SimpleNamespace(g=np.zeros(12)))
+    for a, v in (([], []), ([2], [8]), ([4], [10]), ([1, 3], [7, 9]), ([0, 3], [6, 9]), ([], [])):
+        stub.Bus.n_islanded_buses = len(a)
+        stub.Bus.islanded_a, stub.Bus.islanded_v = np.array(a, dtype=int), np.array(v, dtype=int)
+        stub.dae.g[:] = np.arange(1.0, 13.0)
+        System.g_islands(stub)
+        want = np.arange(1.0, 13.0)
+        want[list(a) + list(v)] = 0.0
+        if not np.array_equal(stub.dae.g, want):
+            return {'confirmed': True, 'inputs': {'sequence up to': {'islanded_a': a, 'islanded_v': v}},
+                    'observed': 'dae.g after g_islands = %r, expected %r' % (stub.dae.g.tolist(), want.tolist()),
+                    'native_cmd': 'System.g_islands(stub) called for a sequence of islanded sets'}
+    return {'confirmed': False, 'tried': 6}
